@@ -13,6 +13,8 @@ per-call path rules decide every call sequence (the history quantifier collapses
       Optional option is reached only when that option is not None; a store that depends on
       no option must be a re-derivation of state from flags that only this method writes.
  R11d setters reach every layer: the wrapper switches loop over the full leaf list.
+ R11g (= C08 R08d) the frozen masker classes are selected for every width group tied to the
+      network interface (tests quantified over the whole group) and for strided convolutions.
 """
 from __future__ import annotations
 
@@ -628,6 +630,16 @@ def run(ctx):
     r11d(ctx)
     r11e(ctx)
     r11f(ctx)
+    # which masks are frozen by construction is decided where the maskers are created: the
+    # selection rule of C08 (frozen class chosen exactly for width groups that touch a graph
+    # input / output / output-connected node, each test over EVERY node of the group, and for
+    # strided convolutions) is a premise of 'never become trainable': a group that misses the
+    # frozen class gets a plain masker whose alpha is a NAS parameter
+    from . import c08
+    before = len(ctx.obligations)
+    c08.r08d(ctx)
+    for o in ctx.obligations[before:]:
+        o.rule = 'R11g'
     ctx.assume('torch: a set of tensors compares by identity (Tensor.__hash__ is id-based); '
                'buffers are never returned by named_parameters()')
     ctx.assume('each control is a single call whose effect is a function of its arguments only '
